@@ -247,3 +247,24 @@ for _m in (E, H, T, M, LLmod):
     if "sympy" in _m.__dict__:
         _m.__dict__["sympy"] = _SympyOutsideTracer(_sympy)
 BASE_NS["sympy"] = _SympyOutsideTracer(_sympy)
+
+
+def pick_str(s, alphabet, maxlen):
+    """Concrete copy of the symbolic string s (over `alphabet`, len <= maxlen): one path per value."""
+    n = pick(len(s), 0, maxlen)
+    out = ""
+    for i in range(n):
+        for ch in alphabet:
+            if s[i] == ch:
+                out += ch
+                break
+        else:
+            raise AssertionError("pick_str: character outside the alphabet")
+    return out
+
+
+def outside_tracer(fn, *args, **kw):
+    """Call fn on already-concrete arguments outside the tracer (used where the callee runs sympy objects' own methods,
+    which are nondeterministic under CrossHair's tracer). The obligation is then realisation-exhausted over its finite range."""
+    with NoTracing():
+        return fn(*args, **kw)
